@@ -435,6 +435,18 @@ func main() {
 					fail("range_covered_to_end")
 				}
 			}
+			// storage ranges of a monthly axis start and end at month starts of the location, whatever the offset
+			// (regular calendars only; evaluated on every case, also on those tagged with a recorded finding)
+			if lerr == nil && monthly && known != "F-C22b" {
+				for _, l := range lods {
+					for _, x := range []int64{l.FromSec, l.ToSec} {
+						lt := time.Unix(x, 0).In(a.Location)
+						if time.Date(lt.Year(), lt.Month(), 1, 0, 0, 0, 0, a.Location).Unix() != x {
+							o.Fail("lods_start_at_month_starts", line, input)
+						}
+					}
+				}
+			}
 			// storage ranges
 			if lerr == nil {
 				if len(lods) != len(ts.LODs) {
@@ -518,8 +530,13 @@ func main() {
 			default:
 				m.off = int64(r.Intn(100000))
 			}
-			if monthly && r.Chance(70) {
-				m.off = 0
+			if monthly { // offsets of whole "months" (k * _1M) are the ones that pass the multiple-of-step check
+				switch x := r.Intn(100); {
+				case x < 50:
+					m.off = 0
+				case x < 95:
+					m.off = month * int64(1+r.Intn(14))
+				}
 			}
 			ms = append(ms, m)
 		}
